@@ -297,3 +297,21 @@ func vh_C11_InnerHandlers() {
 	}
 	vfReach("end")
 }
+
+// LEMMA (the property does not say what happens when a MonadIO is reconfigured while an evaluation is in flight):
+// the handlers used by an evaluation are the ones in place when Subscribe was called
+func vh_C11_ReconfiguredInFlight() {
+	h1, h2, h3 := Handler.New(), Handler.New(), Handler.New()
+	id2 := -1
+	h2.Post(func() { id2 = vfGoroutineID() })
+	vfQuiesce()
+	gate := make(chan struct{})
+	nextOn := -1
+	m := MonadIONewGenerics(func() int { <-gate; return 1 }).ObserveOn(h1).SubscribeOn(h2)
+	m.Subscribe(Subscription[int]{OnNext: func(v int) { nextOn = vfGoroutineID() }})
+	m.SubscribeOn(h3) // reconfigured for a later evaluation while the first effect is still running on h1
+	close(gate)
+	vfQuiesce()
+	vfAssert("lemma/onnext-on-the-subscribe-handler-of-its-own-evaluation", nextOn == id2)
+	vfReach("end")
+}
